@@ -24,3 +24,37 @@ def pure(d, k):
     res = {}
     res[k] = 2
     return e, res
+
+
+def pure_fresh_in_one_branch(params_dict, keys):
+    # the store only happens where `by_key` is a fresh dictionary; in the other branch the name is an alias of the argument
+    # but nothing is written through it
+    if keys:
+        by_key = {}
+        for k in keys:
+            by_key[k] = params_dict.eq_params
+    else:
+        by_key = params_dict.eq_params
+    return by_key
+
+
+def pure_rebound(d, k):
+    d = dict(d)        # the name no longer refers to the caller's object
+    d[k] = 1
+    return d
+
+
+def writes_after_alias_in_branch(params_dict, flag):
+    if flag:
+        target = {}
+    else:
+        target = params_dict.eq_params
+    target["x"] = 1     # may write into the caller's dictionary
+    return target
+
+
+def writes_in_closure(params_dict):
+    def inner(k):
+        params_dict.eq_params[k] = 0
+    inner("a")
+    return params_dict
